@@ -19,7 +19,9 @@ func pureScalarFn(fn *ssa.Function, fc *FuncContract) bool {
 		return false
 	}
 	for _, p := range fn.Params {
-		if kindOf(p.Type()) != KScalar {
+		// pointer parameters stand for the identity of the object (assumption, as for pure interface
+		// methods: the result depends on nothing that changes while the caller runs)
+		if k := kindOf(p.Type()); k != KScalar && k != KPtr {
 			return false
 		}
 	}
@@ -46,11 +48,21 @@ func (x *Exec) pureApp(fn *ssa.Function, args []*Term) *Term {
 	return App(q, rs, args...)
 }
 
+func pureArgTerm(a Value) *Term {
+	if a.K == KPtr {
+		if !a.isCanonical() {
+			unsupported("interior pointer passed to a pure function")
+		}
+		return a.Loc.Root
+	}
+	return a.X
+}
+
 // pureCallValue: the application plus its contract's ensures as (side) facts.
 func (x *Exec) pureCallValue(fr *Frame, st *State, fn *ssa.Function, fc *FuncContract, pkg *PkgInfo, args []Value) Value {
 	var ts []*Term
 	for _, a := range args {
-		ts = append(ts, a.X)
+		ts = append(ts, pureArgTerm(a))
 	}
 	rt := fn.Signature.Results().At(0).Type()
 	res := Value{T: rt, K: KScalar, X: x.pureApp(fn, ts)}
